@@ -621,7 +621,14 @@ type Fact struct {
 // Cmp is the fact "l REL r" (for example Cmp(a, GE, b): a >= b is known).
 // It is established by an edge whose atom compares the two terms and whose
 // polarity yields a relation at least as strong.
-func Cmp(l Term, rel Rel, r Term, desc string) Fact {
+func Cmp(l Term, rel Rel, r Term, desc string) Fact { return cmpFact(l, rel, r, desc, false) }
+
+// CmpX is Cmp with an exact relation: the edge must establish precisely rel
+// (a stronger comparison does not count). Used for window bounds, where a
+// tightened filter loses elements just as a loosened one admits wrong ones.
+func CmpX(l Term, rel Rel, r Term, desc string) Fact { return cmpFact(l, rel, r, desc, true) }
+
+func cmpFact(l Term, rel Rel, r Term, desc string, exact bool) Fact {
 	return Fact{Desc: desc, Hold: func(f *Func, e *flow.Edge) bool {
 		if e.Kind != flow.ETrue && e.Kind != flow.EFalse {
 			return false
@@ -651,10 +658,10 @@ func Cmp(l Term, rel Rel, r Term, desc string) Fact {
 		if e.Kind == flow.EFalse {
 			got = got.neg()
 		}
-		if Match(f, l, x) && Match(f, r, y) && got&^rel == 0 {
+		if Match(f, l, x) && Match(f, r, y) && got&^rel == 0 && (!exact || got == rel) {
 			return true
 		}
-		if Match(f, l, y) && Match(f, r, x) && got.swap()&^rel == 0 {
+		if Match(f, l, y) && Match(f, r, x) && got.swap()&^rel == 0 && (!exact || got.swap() == rel) {
 			return true
 		}
 		return false
